@@ -145,6 +145,13 @@ def engine_chains(ix, contract="margined_engine"):
                 continue
             st = Step(ix, rt.fn, h, "reply:id%d" % ident)
             st.ident = ident
+            if rt.msg is not None:
+                # on this arm the reply's id is this constant: a handler that receives `msg.id` itself (arms merged with an
+                # or-pattern) sees the literal, exactly as if the dispatcher had passed it
+                idv = sym.field(rt.msg, "id")
+                lit = sym.intc(ident, "u64")
+                st.m = {k: sym.subst(v, {idv: lit}) for k, v in st.m.items()}
+                st._oks = None
             walk(steps + [st], key + ">id%d" % ident, depth - 1)
 
     for variant in sorted(table):
